@@ -86,6 +86,9 @@ M = [
     ("b17", "C14", "benign", AS, "def update_step_size(error_estimate, prev_step_size, safety=0.9, facmin=0.2, facmax=1.4, prev_error_ratio=None):", "def update_step_size(error_estimate, prev_step_size, safety=0.85, facmin=0.2, facmax=2.0, prev_error_ratio=None):"),
     ("b18", "C05", "benign", BI, "        piece_length = self._tree_dt * cache_size * 0.8", "        piece_length = self._tree_dt * cache_size * 0.5"),
     ("b08", "C13", "benign", IN, "y = (t1 - t) / (t1 - t0) * y0 + (t - t0) / (t1 - t0) * y1", "w = (t - t0) / (t1 - t0)\n    y = y0 + w * (y1 - y0) if 0 < w < 1 else (y0 if w <= 0 else y1)"),
+    # benign (round 2): the cache asked with .get() (and the cache_size=0 mapping given one): the fault-injecting wrapper must be transparent
+    ("b19", "C05", "benign", BI, "        W, H = trampoline.trampoline(self._increment_and_space_time_levy_area())\n        A = _davie_foster_approximation(",
+     "        W_H = getattr(self._top._increment_and_space_time_levy_area_cache, 'get', lambda _k: None)(self)\n        if W_H is None:\n            W_H = trampoline.trampoline(self._increment_and_space_time_levy_area())\n        W, H = W_H\n        A = _davie_foster_approximation("),
 ]
 
 
